@@ -67,3 +67,12 @@ Example c29_unsub_nonvacuous :
   lquiescent s /\ In 1%nat (l_started s) /\ nsubs 7 (l_ch s) = 0%nat /\
   In (1%nat, 7%nat, true) (l_wire s) /\ told (l_wire s) 1 7 = false.
 Proof. vm_compute. repeat split; auto 10. Qed.
+
+(* the stream of an already known tuple is replaced in the same pass in which the
+   last subscription of an announced channel is released: the new stream gets the
+   initial set (no retraction in it) AND the sweep's Subscribe=false *)
+Example c29_unsub_replaced_stream :
+  let s := lrun linit [LSubscribe 7; LAddPeer 1; LPass; LReplace 1; LRelease 7; LWake; LPass] in
+  lquiescent s /\ In 1%nat (l_started s) /\ nsubs 7 (l_ch s) = 0%nat /\
+  In (1%nat, 7%nat, true) (l_wire s) /\ told (l_wire s) 1 7 = false.
+Proof. vm_compute. repeat split; auto 10. Qed.
